@@ -8,7 +8,8 @@
    cancellations / timeouts, OpenStream and dial results, peerstore changes. *)
 From Coq Require Import List Arith ZArith Bool.
 From Verif Require Import lib.Wire c12.Model c12.ModelHP c12.SpecSwarm c12.SpecHP c12.Spec
-  c12.Proofs_conn c12.Proofs_inv c12.Proofs_wait c12.Proofs_wake c12.Proofs_trace c12.Proofs_hp.
+  c12.Proofs_conn c12.Proofs_inv c12.Proofs_wait c12.Proofs_wake c12.Proofs_trace c12.Proofs_quiesce c12.Proofs_stim c12.Proofs_clauses
+  c12.Proofs_headline c12.Proofs_hp.
 Import ListNotations.
 
 (* A stream is opened (or being opened) over a limited connection only by a
@@ -92,26 +93,33 @@ Theorem c12_no_lost_wakeup : forall da s c, reachable da s ->
 Proof. exact no_lost_wakeup_l. Qed.
 Print Assumptions c12_no_lost_wakeup.
 
-(* The swarm monitor that judges the implementation's traces, run on the trace
-   the model produces for ANY list of harness operations (each: one stimulus,
-   then every call runs until it blocks): its state clauses — 1 (what calls
-   returned: no stream over a limited conn without allow-limited, no relayed conn
-   from a force-direct dial), 5 (Connectedness) and 6 (no relay address dialled
-   under force-direct) — hold at every step, so the monitor can never report
-   them on a model trace.  PARTIAL: the progress clauses 2,3,4,7,8 (evaluated at
-   quiescence) are checked on the implementation's traces by the correspondence
-   only. *)
-Theorem c12_swarm_trace_state_clauses_partial : forall da ops,
-  forallb (fun ox => static_ok (snd ox)) (model_trace (init_state da) ops) = true /\
-  match monitor_run obs_init 0 (model_trace (init_state da) ops) with
-  | [_; _; k] => k <> 1%Z /\ k <> 5%Z /\ k <> 6%Z
-  | _ => True
-  end.
-Proof.
-  intros da ops. assert (R : reachable da (init_state da)) by (exists []; reflexivity).
-  split; [exact (static_trace_holds da ops _ R)|exact (monitor_never_static_clause da ops _ obs_init 0 R)].
-Qed.
-Print Assumptions c12_swarm_trace_state_clauses_partial.
+(* HEADLINE.  The swarm monitor that judges the implementation's traces (all eight
+   clauses: 1 what calls returned, 2 waiter-list length = number of blocked
+   waiters, 3 nobody waits once a usable non-limited conn has been added, 4 a
+   waiter whose context ended has failed, 5 Connectedness, 6 no relay address
+   dialled under force-direct, 7 a call without allow-limited waits when only
+   limited conns are usable, 8 a waiter keeps waiting unless a direct conn arrives
+   or its context ends) accepts the trace the model produces for EVERY list of
+   harness operations (each: one stimulus, then every call runs until it blocks),
+   from the initial state, for every value of DialAttempts. *)
+Theorem c12_swarm_trace_holds : forall da ops,
+  monitor_run obs_init 0 (model_trace (init_state da) ops) = [].
+Proof. exact swarm_trace_holds_l. Qed.
+Print Assumptions c12_swarm_trace_holds.
+
+(* "every call runs until it blocks": the runner terminates in a state where no
+   call can take a step (each call step strictly lowers the rank sum), whatever
+   the state and the stimulus. *)
+Theorem c12_runner_reaches_quiescence : forall s o, quiescent (apply_op s o).
+Proof. exact apply_op_quiescent. Qed.
+Print Assumptions c12_runner_reaches_quiescence.
+
+(* at every reachable quiescent state the waiter list has exactly one entry per
+   call blocked in waitForDirectConn *)
+Theorem c12_waiters_counted_at_quiescence : forall da s, reachable da s -> quiescent s ->
+  length (waiters s) = n_waiting (map (call_of s) (threads s)).
+Proof. exact clause2_at_quiescence. Qed.
+Print Assumptions c12_waiters_counted_at_quiescence.
 
 (* Hole punching, initiator: everything directConnect asks of the host is
    well-formed (every Connect is force-direct, a hole-punch Connect carries no
